@@ -268,6 +268,22 @@ Section RegionFacts.
   Proof. intros HW HH I. apply (core_redraw_into st); assumption. Qed.
 
   (* ---------------------------------------------------------------- SetEncodings *)
+  (* a pending copy is given up: its destination becomes modified pixels *)
+  Lemma core_drop_copy W H F c dx' dy' :
+    InvCore W H F c -> InvCore W H F (set_regions c (rgn_or (cM c) (cC c)) rgn_empty dx' dy' (cR c)).
+  Proof.
+    intros I. pose proof (iWM _ _ _ _ I) as HWM. pose proof (iWC _ _ _ _ I) as HWC.
+    destruct I. destruct c; csimpl.
+    constructor; csimpl; try assumption; try apply WF_empty; try wf.
+    - intros x y Hm. msimp_in Hm. apply orb_true_iff in Hm. destruct Hm as [Hm|Hm]; [auto|apply iCin0 in Hm; tauto].
+    - intros x y Hm. rewrite rgn_mem_empty in Hm. discriminate.
+    - destruct iStale0 as [?|Hall]; [left; assumption|right].
+      intros x y Hsc. msimp. rewrite (Hall x y Hsc). reflexivity.
+    - intros Hw Hh x y Hsc Hm. msimp_in Hm. apply orb_false_iff in Hm. destruct Hm as [HmM HmC].
+      split; [intros Hc; rewrite rgn_mem_empty in Hc; discriminate|]. intros _.
+      apply (iPix0 Hw Hh x y Hsc HmM). exact HmC.
+  Qed.
+
   Lemma inv_setenc st F c copyrect shape newfb ext :
     0 < sW st -> 0 < sH st ->
     InvC (sW st) (sH st) F c -> InvC (sW st) (sH st) F (setenc_client st copyrect shape newfb ext c).
@@ -288,14 +304,22 @@ Section RegionFacts.
     set (c3a := if ext then set_flags c2 (cUseCopy c2) (cShape c2) (cCurChanged c2) (cReady c2) true true else c2).
     assert (I3a : InvCore (sW st) (sH st) F c3a).
     { apply (core_ext _ _ _ c1); [exact I1|..]; unfold c3a, c2; destruct ext; destruct newfb; destruct c1; reflexivity. }
-    set (c3 := if cShape c && negb (cShape c3a) then redraw_cursor_M st c3a else c3a).
-    assert (I3 : InvCore (sW st) (sH st) F c3).
-    { unfold c3. destruct (cShape c && negb (cShape c3a)); [apply core_redraw; assumption|exact I3a]. }
-    assert (E3 : cPW c3 = cPW c /\ cPH c3 = cPH c /\ cNewFBPending c3 = cNewFBPending c).
+    set (c3b := if cShape c && negb (cShape c3a) then redraw_cursor_M st c3a else c3a).
+    assert (I3b : InvCore (sW st) (sH st) F c3b).
+    { unfold c3b. destruct (cShape c && negb (cShape c3a)); [apply core_redraw; assumption|exact I3a]. }
+    assert (E3b : cPW c3b = cPW c /\ cPH c3b = cPH c /\ cNewFBPending c3b = cNewFBPending c).
     { assert (E3a : cPW c3a = cPW c /\ cPH c3a = cPH c /\ cNewFBPending c3a = cNewFBPending c).
       { unfold c3a, c2, c1, c0. destruct ext; destruct newfb; destruct shape; destruct c; cbn; repeat split. }
-      unfold c3. destruct (cShape c && negb (cShape c3a)); [|exact E3a].
+      unfold c3b. destruct (cShape c && negb (cShape c3a)); [|exact E3a].
       destruct E3a as (? & ? & ?). destruct c3a; cbn in *. repeat split; assumption. }
+    set (c3 := if setenc_drops_copy && negb copyrect && negb (rgn_is_empty (cC c3b))
+               then set_regions c3b (rgn_or (cM c3b) (cC c3b)) rgn_empty 0 0 (cR c3b) else c3b).
+    assert (I3 : InvCore (sW st) (sH st) F c3).
+    { unfold c3. destruct (setenc_drops_copy && negb copyrect && negb (rgn_is_empty (cC c3b)));
+        [apply core_drop_copy; exact I3b|exact I3b]. }
+    assert (E3 : cPW c3 = cPW c /\ cPH c3 = cPH c /\ cNewFBPending c3 = cNewFBPending c).
+    { unfold c3. destruct (setenc_drops_copy && negb copyrect && negb (rgn_is_empty (cC c3b))); [|exact E3b].
+      destruct E3b as (? & ? & ?). destruct c3b; cbn in *. repeat split; assumption. }
     destruct E3 as (Ew & Eh & Ep).
     change (InvC (sW st) (sH st) F (if cUseNewFB c3 then c3 else client_resize c3 (sW st) (sH st))).
     destruct (cUseNewFB c3) eqn:Eu.
@@ -353,7 +377,7 @@ Section RegionFacts.
     sched_copy_client cur K dx dy c = Some c' -> SizeOK W H c -> SizeOK W H c' /\ cBpp c' = cBpp c.
   Proof.
     unfold sched_copy_client, SizeOK. destruct c; csimpl.
-    destruct cUseCopy; [|intros Hs; inversion Hs; subst; csimpl; auto].
+    destruct (cUseCopy && _); [|destruct (negb (rgn_is_empty cC)); intros Hs; inversion Hs; subst; csimpl; auto].
     destruct (negb (rgn_is_empty cC)); [destruct (negb (cDX =? dx) || negb (cDY =? dy))|];
       (destruct cShape; [intros Hs; inversion Hs; subst; csimpl; auto|]);
       destruct cur as [[[[xh yh] cw] ch]|];
@@ -363,7 +387,7 @@ Section RegionFacts.
   (* since fix 812461a rfbScheduleCopyRegion cannot fail (no NULL dereference) *)
   Lemma sched_copy_total cur K dx dy c : exists c', sched_copy_client cur K dx dy c = Some c'.
   Proof.
-    unfold sched_copy_client. destruct (cUseCopy c); [|eexists; reflexivity].
+    unfold sched_copy_client. destruct (cUseCopy c && _); [|destruct (negb (rgn_is_empty (cC c))); eexists; reflexivity].
     destruct (if negb (rgn_is_empty (cC c)) then _ else _) as [M1 C1].
     destruct (cShape c); [eexists; reflexivity|].
     destruct cur as [[[[xh yh] cw] ch]|]; eexists; reflexivity.
@@ -379,13 +403,26 @@ Section RegionFacts.
     split; [|apply (sched_copy_size _ _ _ _ _ _ _ _ Hs S)].
     pose proof (iWM _ _ _ _ I) as HWM. pose proof (iWC _ _ _ _ I) as HWC.
     pose proof (iMin _ _ _ _ I) as HMin. pose proof (iCin _ _ _ _ I) as HCin.
-    unfold sched_copy_client in Hs. destruct (cUseCopy c) eqn:Euc.
-    2:{ (* no CopyRect: the destination is simply modified *)
-      inversion Hs; subst. apply core_grow_M with (F := F); try assumption; try wf.
-      - intros x y Hm. msimp. rewrite Hm. reflexivity.
-      - intros x y Hm. msimp_in Hm. apply orb_true_iff in Hm. destruct Hm as [Hm|Hm]; [auto|apply HKin; exact Hm].
-      - intros x y Hsc Hm. msimp_in Hm. apply orb_false_iff in Hm. destruct Hm as [_ Hm].
-        rewrite (HF _ _ Hsc), Hm. reflexivity. }
+    unfold sched_copy_client in Hs. destruct (cUseCopy c && _) eqn:Euc.
+    2:{ (* no CopyRect: the destination is simply modified, a pending copy becomes modified pixels *)
+      destruct (negb (rgn_is_empty (cC c))) eqn:Ene; inversion Hs; subst.
+      - assert (HM' : WF (rgn_or (rgn_or (cM c) (cC c)) K)) by wf.
+        destruct I. destruct c; csimpl.
+        constructor; csimpl; try assumption; try apply WF_empty.
+        + intros x y Hm. msimp_in Hm. apply orb_true_iff in Hm. destruct Hm as [Hm|Hm]; [|apply HKin; exact Hm].
+          apply orb_true_iff in Hm. destruct Hm as [Hm|Hm]; [auto|apply iCin0 in Hm; tauto].
+        + intros x y Hm. rewrite rgn_mem_empty in Hm. discriminate.
+        + destruct iStale0 as [?|Hall]; [left; assumption|right].
+          intros x y Hsc. msimp. rewrite (Hall x y Hsc). reflexivity.
+        + intros Hw Hh x y Hsc Hm. msimp_in Hm. apply orb_false_iff in Hm. destruct Hm as [Hm HmK].
+          apply orb_false_iff in Hm. destruct Hm as [HmM HmC].
+          split; [intros Hc; rewrite rgn_mem_empty in Hc; discriminate|]. intros _.
+          rewrite (HF _ _ Hsc), HmK. apply (iPix0 Hw Hh x y Hsc HmM). exact HmC.
+      - apply core_grow_M with (F := F); try assumption; try wf.
+        + intros x y Hm. msimp. rewrite Hm. reflexivity.
+        + intros x y Hm. msimp_in Hm. apply orb_true_iff in Hm. destruct Hm as [Hm|Hm]; [auto|apply HKin; exact Hm].
+        + intros x y Hsc Hm. msimp_in Hm. apply orb_false_iff in Hm. destruct Hm as [_ Hm].
+          rewrite (HF _ _ Hsc), Hm. reflexivity. }
     (* the three cases for the pending copy *)
     assert (G : exists M1 C1,
               (if negb (rgn_is_empty (cC c)) then
@@ -533,6 +570,14 @@ Section RegionFacts.
     split; [wf|]. intros x y Hm. apply bbox_sup; assumption.
   Qed.
 
+  Lemma coalesce16_spec st n U : WF U ->
+    WF (coalesce16 st n U) /\ (forall x y, rgn_mem U x y = true -> rgn_mem (coalesce16 st n U) x y = true).
+  Proof.
+    intros HU. destruct (coalesce_spec st U HU) as [H1 H2]. unfold coalesce16. cbv zeta.
+    destruct (n + rgn_count (coalesce st U) + 6 >=? 65535); [|auto].
+    split; [wf|]. intros x y Hm. apply bbox_sup; [exact H1|]. apply H2. exact Hm.
+  Qed.
+
   Lemma slice_region_spec st c M U0 sy :
     0 < sW st -> WF M -> slice_region st c M = (U0, sy) ->
     WF U0 /\ (forall x y, rgn_mem U0 x y = true -> rgn_mem M x y = true).
@@ -566,8 +611,8 @@ Section RegionFacts.
     destruct (soft_cursor st c1 U3) as [c2 U3c] eqn:Esc.
     destruct (soft_cursor_spec _ _ _ _ _ HW HH HU3 Esc)
       as (HU3c & Hsup3 & E1 & E2 & E3 & E4 & E5 & E6 & E7 & E8 & E9 & E10 & E11).
-    destruct (coalesce_spec st U3c HU3c) as [HU4 Hsup4].
-    set (U4 := coalesce st U3c) in *.
+    destruct (coalesce16_spec st (rgn_count UC) U3c HU3c) as [HU4 Hsup4].
+    set (U4 := coalesce16 st (rgn_count UC) U3c) in *.
     set (c3 := if sendShape
                then set_flags c2 (cUseCopy c2) (cShape c2) false (cReady c2) (cUseNewFB c2) (cUseExt c2)
                else c2).
